@@ -314,8 +314,6 @@ class P:
             c = s[self.i]
             if c == "\\":
                 return self.parse_escape()
-            if c.isspace() or c == "#":
-                self.err("white space or # inside a class (ambiguous in verbose mode)")
             if c == "[":
                 self.err("nested class / POSIX class not supported")
             if s.startswith("&&", self.i) or s.startswith("--", self.i) or s.startswith("~~", self.i):
@@ -323,6 +321,9 @@ class P:
             self.i += 1
             return ord(c)
         while True:
+            # verbose mode (always on in this parser): the regex crate skips white space and `# ...` comments inside a
+            # class too (checked against regex 1.x: "(?x)^[ a\n b # c\n d ]$" matches exactly a, b, d)
+            self.skip()
             if self.i >= len(s):
                 self.err("unterminated class")
             c = s[self.i]
@@ -340,8 +341,10 @@ class P:
             else:
                 lo = item()
             first = False
+            self.skip()
             if s[self.i] == "-" and s[self.i + 1] != "]":
                 self.i += 1
+                self.skip()
                 hi = item()
                 if hi < lo:
                     self.err("empty range in class")
